@@ -4867,7 +4867,8 @@ func (t *Terminal) Loop() error {
 				return nil
 			}
 		}
-		previousInput := t.input
+		// Take a copy; the actions may rewrite the query buffer in place
+		previousInput := string(t.input)
 		previousCx := t.cx
 		t.lastKey = event.KeyName()
 		events := []util.EventType{}
